@@ -459,20 +459,24 @@ def lxml_tree_json(root):
     return go(root)
 
 
-def real_write(uni: B.Universe, obj, backend: str, indent=None, ignore_default_attributes=False, xml_declaration=False):
-    """-> ('text', str) for the two writers, ('tree', lxml tree) for the tree serializer"""
+def real_write(uni: B.Universe, obj, backend: str, indent=None, ignore_default_attributes=False, xml_declaration=False,
+               ns_map=None, schema_location=None, no_namespace_schema_location=None):
+    """-> ('text', str) for the two writers, ('tree', lxml tree) for the tree serializer.
+    `ns_map`: the user's prefix map as [[prefix | "" | None, uri]...] in insertion order"""
     from xsdata.formats.dataclass.context import XmlContext
     from xsdata.formats.dataclass.serializers import XmlSerializer
     from xsdata.formats.dataclass.serializers.config import SerializerConfig
     from xsdata.formats.dataclass.serializers.tree import TreeSerializer
     from xsdata.formats.dataclass.serializers.writers import LxmlEventWriter, XmlEventWriter
 
-    cfg = SerializerConfig(indent=indent, ignore_default_attributes=ignore_default_attributes, xml_declaration=xml_declaration)
+    cfg = SerializerConfig(indent=indent, ignore_default_attributes=ignore_default_attributes, xml_declaration=xml_declaration,
+                           schema_location=schema_location, no_namespace_schema_location=no_namespace_schema_location)
     ctx = XmlContext(models_package=uni.modname)
+    user = {p: u for p, u in ns_map} if ns_map is not None else None
     if backend == "tree":
-        return TreeSerializer(context=ctx, config=cfg).render(obj)
+        return TreeSerializer(context=ctx, config=cfg).render(obj, user)
     w = XmlEventWriter if backend == "native" else LxmlEventWriter
-    return XmlSerializer(context=ctx, config=cfg, writer=w).render(obj)
+    return XmlSerializer(context=ctx, config=cfg, writer=w).render(obj, user)
 
 
 def real_infoset(uni, obj, backend, **kw):
@@ -836,3 +840,53 @@ def real_union_record(tree):
         else:
             out.append(["end", ev[1]])
     return {"ok": out}
+
+
+# --------------------------------------------------------------------------
+# universes with namespace-qualified attributes (user prefix maps matter for them)
+# --------------------------------------------------------------------------
+def qualified_attr_universe(rng):
+    """Root / Item classes in a namespace with attributes qualified in that namespace, in another one and
+    unqualified ones, qualified and unqualified child elements.  Returns (desc, build)."""
+    ns = rng.choice(["urn:demo", "http://example.com/ns", "urn:a"])
+    ns2 = rng.choice(["urn:two", "urn:b"])
+
+    def attr(fname, t="str", **md):
+        return {"name": fname, "type": {"opt": t}, "metadata": {"type": "Attribute", **md}, "default": {"value": None}}
+
+    def elem(fname, t, **md):
+        return {"name": fname, "type": {"opt": t}, "metadata": {"type": "Element", **md}, "default": {"value": None}}
+
+    item_ns = rng.choice([ns, ns2, None])
+    item = {"name": "Item", "fields": [attr("code", namespace=ns), attr("n", "int", namespace=ns2), attr("plain"),
+                                        elem("label", "str")]}
+    if item_ns:
+        item["meta"] = {"namespace": item_ns}
+    root_fields = [attr("code", namespace=ns), attr("plain"), attr("other", rng.choice(["str", "bool"]), namespace=ns2),
+                   elem("label", "str", namespace=ns), elem("loc", "str", namespace=""),
+                   {"name": "item", "type": {"list": {"cls": "Item"}}, "metadata": {"type": "Element"}, "default": {"factory": "list"}}]
+    if rng.random() < 0.4:
+        root_fields.append({"name": "any", "type": {"dict": 1}, "metadata": {"type": "Attributes", "namespace": "##any"},
+                            "default": {"factory": "dict"}})
+    root = {"name": "Root", "fields": root_fields}
+    if rng.random() < 0.85:
+        root["meta"] = {"namespace": ns}
+    desc = {"classes": [item, root]}
+
+    def build(u, r):
+        C = u.classes
+        other_t = root_fields[2]["type"]["opt"]
+
+        def item_obj():
+            return C["Item"](code=r.choice([None, "A1", ""]), n=r.choice([None, 3]), plain=r.choice([None, "p"]),
+                             label=r.choice([None, "l"]))
+
+        kw = dict(code=r.choice(["A1", "A1", "x y", None]), plain=r.choice([None, "p"]),
+                  other={"str": r.choice([None, "o"]), "bool": r.choice([None, True])}[other_t],
+                  label=r.choice([None, "hello"]), loc=r.choice([None, "here"]),
+                  item=[item_obj() for _ in range(r.randint(0, 2))])
+        if len(root_fields) > 6:
+            kw["any"] = r.choice([{}, {"{%s}w" % ns: "1"}, {"w": "2", "{urn:zz}v": "3"}])
+        return C["Root"](**kw)
+
+    return desc, build
